@@ -7,11 +7,21 @@
     Also proved: quiescence of a phase - the desired state is a fixpoint of the phase reconciler (a settled object is
     re-applied without any change; every successful apply leaves the object settled; a completed pass over a
     phase is followed by passes that change neither the store nor the counters: "further reconciles change nothing").
+    Also proved: quiescence of the whole controller pass - one Reconcile of the (Cluster)ObjectSet controller is a
+    fixpoint of itself: whatever an active, unpaused pass did (completed, stopped at a failing probe, refused an
+    adoption, found a duplicate, waited for a previous revision, assigned the revision, added the finalizer), the
+    next pass from the world it left returns the same result and writes NOTHING - member store, both counters, all
+    stored ObjectSets and phase objects are unchanged; it sends only no-op applies (or applies the server rejects
+    again), reads, and a status equal to the stored one, which is not persisted. Premises: stored members have
+    well-formed owner lists; phase objects of delegated phases exist, are controlled and in sync (the pass that
+    CREATES a phase object is not a fixpoint: refuted, the third pass is); the ObjectSet does not name itself as its
+    previous revision unless the remote-phase references are already recorded (refuted otherwise).
     What is NOT proved (explored by fault enumeration on the real code in checks/C10.py): that the
     sequence of passes reaches the clean-run end state from every disturbed state, for multi-revision
-    deployments and under every fair schedule; quiescence of the ObjectSet's own status writes. Statements only. *)
+    deployments and under every fair schedule; quiescence of the ObjectSetPhase and ObjectDeployment controllers. Statements only. *)
 From Coq Require Import List NArith ZArith Bool.
-From PKO Require Import Base Owner OwnerProofs Api ApiProofs Phase PhaseProofs AdoptProofs ConvergeProofs FixpointProofs.
+From PKO Require Import Base Owner OwnerProofs Api ApiProofs Phase PhaseProofs AdoptProofs ConvergeProofs FixpointProofs
+  ObjectSet ObjectSetProofs SetExamples QuiescenceProofs QuiescenceExamples.
 Import ListNotations.
 
 Theorem C10_apply_idempotent :
@@ -83,3 +93,109 @@ Theorem C10_phase_pass_is_fixpoint :
       reconcile_objects c idw w' ow prev ps acc2 failed2 = (w', evs2, PhOk a2 f2) /\ Forall noop_ev evs2.
 Proof. exact phase_pass_is_fixpoint. Qed.
 Print Assumptions C10_phase_pass_is_fixpoint.
+
+(** ** Quiescence of the whole ObjectSet controller pass *)
+
+(** The status computed after the phase loop, computed again from an ObjectSet that already carries it (same spec,
+    same remote phases, same controllerOf / failed phase), is the status it carries: Available, InTransition,
+    Succeeded and Paused are all re-derived unchanged. *)
+Theorem C10_status_recomputed_is_stored :
+  forall phs m m' ctrlof failed,
+    os_life m' = os_life m -> os_remotes m' = os_remotes m -> os_id m' = os_id m -> os_gen m' = os_gen m ->
+    os_phases m' = os_phases m ->
+    os_conds m' = os_conds (final_status phs m ctrlof failed) ->
+    os_conds (final_status phs m' ctrlof failed) = os_conds m'.
+Proof. exact final_status_fix. Qed.
+Print Assumptions C10_status_recomputed_is_stored.
+
+(** A status update that equals the stored status (sent with the current resourceVersion) is not persisted: the
+    world, including the resourceVersion counter, is unchanged. *)
+Theorem C10_unchanged_status_not_written :
+  forall sw m st,
+    find_set (sw_sets sw) (oi_kind (os_id m)) (oi_ns (os_id m)) (oi_name (os_id m)) = Some st ->
+    os_rv st = os_rv m -> stat_eq st m -> update_status sw m = (sw, m, true).
+Proof. exact update_status_noop. Qed.
+Print Assumptions C10_unchanged_status_not_written.
+
+(** A phase replayed: for EVERY outcome of reconciling a list of objects (complete, failing probes, refused
+    adoption, rejected apply), reconciling it again in any world that agrees with the output world on the phase's
+    keys returns the same outcome, leaves that world unchanged and sends only no-op applies (besides re-sending an
+    apply the server rejects). *)
+Theorem C10_phase_replay :
+  forall c ow prev ps w acc failed w' evs r,
+    ow_paused ow = false -> NoDup (map (key_of ow) ps) ->
+    (forall p cu, In p ps -> lookup (key_of ow p) (w_store w) = Some cu -> obj_wf (flavor_strat (c_flavor c)) (ow_id ow) cu) ->
+    reconcile_objects c idw w ow prev ps acc failed = (w', evs, r) ->
+    forall w2, (forall p, In p ps -> lookup (key_of ow p) (w_store w2) = lookup (key_of ow p) (w_store w')) ->
+    exists evs2, reconcile_objects c idw w2 ow prev ps acc failed = (w2, evs2, r) /\ Forall calm_ev evs2 /\
+                 (r <> PhErr ErrInvalid -> Forall noop_ev evs2).
+Proof. exact rec_objs_replay. Qed.
+Print Assumptions C10_phase_replay.
+
+(** One Reconcile of the ObjectSet controller is a fixpoint of itself (PARTIAL: under the premises below; the
+    unconditional statement is refuted by the two witnesses that follow).
+    [members_wf]: stored members of local phases have well-formed owner lists; [remotes_ok]: the phase object of every
+    delegated phase exists, is controlled by the ObjectSet and has spec.paused in sync; [remotes_recorded]: its
+    reference is in status.remotePhases; [not_own_prev]: the ObjectSet is not listed in its own spec.previous.
+    [quiet_sev st']: a member apply that changed nothing or was rejected, a read of a phase object, or a status
+    update equal to the stored status [st']; [noop_sev]: the same with every member apply accepted. No finalizer
+    request, no write to a phase object. Holds with or without finalizer / assigned revision before the first pass,
+    and for every outcome of the first pass. *)
+Theorem C10_pass_is_fixpoint_partial :
+  forall force sw k ns n mem0 sw1 evs1 r1,
+    find_set (sw_sets sw) k ns n = Some mem0 -> is_active mem0 ->
+    os_life mem0 <> LPaused ->
+    members_wf sw mem0 -> remotes_ok sw mem0 -> remotes_recorded sw mem0 \/ not_own_prev mem0 ->
+    objectset_pass force sw k ns n = (sw1, evs1, r1) ->
+    exists st' evs2, find_set (sw_sets sw1) k ns n = Some st' /\
+      objectset_pass force sw1 k ns n = (sw1, evs2, r1) /\
+      Forall (quiet_sev st') evs2 /\ (r1 <> SError -> Forall (noop_sev st') evs2).
+Proof. exact pass_fixpoint. Qed.
+Print Assumptions C10_pass_is_fixpoint_partial.
+
+(** Zero state-changing writes at quiescence: after a pass that ran to its end (in particular one that reported
+    Available=True for every phase) the next pass leaves the world exactly as it is and every member request it
+    sends is a no-op apply. *)
+Theorem C10_quiescent_pass_writes_nothing :
+  forall force sw k ns n mem0 sw1 evs1 requeue,
+    find_set (sw_sets sw) k ns n = Some mem0 -> is_active mem0 -> os_life mem0 <> LPaused ->
+    members_wf sw mem0 -> remotes_ok sw mem0 -> remotes_recorded sw mem0 \/ not_own_prev mem0 ->
+    objectset_pass force sw k ns n = (sw1, evs1, SDone requeue) ->
+    exists st' evs2, find_set (sw_sets sw1) k ns n = Some st' /\
+      objectset_pass force sw1 k ns n = (sw1, evs2, SDone requeue) /\ Forall (noop_sev st') evs2.
+Proof. exact quiescent_pass. Qed.
+Print Assumptions C10_quiescent_pass_writes_nothing.
+
+(** Without [remotes_ok] the statement is false: the pass that creates the phase object of a delegated phase ends with
+    an error before any status is written; the next pass finds the phase object and writes the ObjectSet's status. *)
+Theorem C10_pass_fixpoint_creating_refuted :
+  exists sw mem0, find_set (sw_sets sw) KObjectSet 1 10 = Some mem0 /\ is_active mem0 /\ os_life mem0 <> LPaused /\
+    members_wf sw mem0 /\ remotes_recorded sw mem0 /\ not_own_prev mem0 /\
+    second_world sw <> world_after (pass10 sw).
+Proof. exact pass_fixpoint_creating_refuted. Qed.
+Print Assumptions C10_pass_fixpoint_creating_refuted.
+
+(** Without [remotes_recorded \/ not_own_prev] the statement is false: an ObjectSet listed in its own spec.previous
+    refuses an object in the pass that first records its remote phase, and adopts it in the next (through the remote
+    phase of "the previous revision", which is itself). *)
+Theorem C10_pass_fixpoint_self_previous_refuted :
+  exists sw mem0, find_set (sw_sets sw) KObjectSet 1 10 = Some mem0 /\ is_active mem0 /\ os_life mem0 <> LPaused /\
+    members_wf sw mem0 /\ remotes_ok sw mem0 /\
+    second_world sw <> world_after (pass10 sw).
+Proof. exact pass_fixpoint_self_previous_refuted. Qed.
+Print Assumptions C10_pass_fixpoint_self_previous_refuted.
+
+(** The premises are satisfiable non-trivially: a world in which the first pass creates an object of the second phase
+    and writes the status (resourceVersion counter 50 -> 52, uid counter 60 -> 61), and the second pass returns the
+    same world. *)
+Example C10_pass_fixpoint_premises_met :
+  find_set (sw_sets (ex_world 1 S0)) KObjectSet 1 10 = Some S0 /\ is_active S0 /\ os_life S0 <> LPaused /\
+  members_wf (ex_world 1 S0) S0 /\ (remotes_ok (ex_world 1 S0) S0 /\ remotes_recorded (ex_world 1 S0) S0) /\
+  snd (pass10 (ex_world 1 S0)) = SDone false /\
+  w_rv (sw_w (world_after (pass10 (ex_world 1 S0)))) = 52%N /\ w_uid (sw_w (world_after (pass10 (ex_world 1 S0)))) = 61%N.
+Proof. exact qx_premises. Qed.
+Example C10_pass_fixpoint_second_pass :
+  let sw1 := world_after (pass10 (ex_world 1 S0)) in
+  world_after (pass10 sw1) = sw1 /\ snd (pass10 sw1) = SDone false /\
+  map ev_key (member_evs (snd (fst (pass10 sw1)))) = [ex_key 1 1; ex_key 2 2; ex_key 1 3].
+Proof. exact qx_second_pass_same_world. Qed.
